@@ -329,6 +329,12 @@ def num_class(v):
 
 
 def run(ctx):
+    # drift trigger (DESIGN 2.5): the hand model is parametrised by the forms tools/translate_utils.py recognises; any other
+    # token-level change of the file is reported as broken (not by itself a violation) so that it cannot pass unnoticed
+    _drift = lib.source_drift("threadpool", ['cfavml-utils/src/threadpool.rs', 'cfavml-utils/src/pinning.rs'])
+    if _drift:
+        ctx.broke("translator", "source differs from the text the hand model was written against (corpus/fingerprints.json)", _drift)
+    ctx.extra["source_drift"] = _drift
     facts, errors = ub.translate()
     for e in errors:
         if e["step"] in ("threadpool", "pinning", "cargo", "translate_utils", "render"):
